@@ -231,6 +231,8 @@ impl CompactionWorker {
             ..
         } = db_state;
         let mut db_fields_guard = guarded_db_fields.lock();
+        #[cfg(feature = "verif")]
+        DB::verif_sched_event(db_state, &db_fields_guard, "start");
 
         if is_shutting_down.load(Ordering::Acquire) {
             log::info!(
@@ -256,10 +258,14 @@ impl CompactionWorker {
             log::info!(
                 "Determined that another compaction is necessary. Scheduling compaction task."
             );
+            #[cfg(feature = "verif")]
+            DB::verif_sched_event(db_state, &db_fields_guard, "finish");
             return true;
         }
 
         log::debug!("No follow-up compaction work detected.");
+        #[cfg(feature = "verif")]
+        DB::verif_sched_event(db_state, &db_fields_guard, "finish");
         false
     }
 
